@@ -63,10 +63,12 @@ Definition block_level (k : kind) : bool :=
 Definition is_cell (k : kind) : bool := match k with KCell => true | _ => false end.
 Definition stacking_class (k : kind) : bool :=
   match k with KInlineBlock | KInlineFlex | KInlineGrid => true | _ => false end.
-(* draw_stacking_context point 2: (BlockBox, MarginBox, InlineBlockBox, TableCellBox, FlexContainerBox, ReplacedBox) *)
+(* draw_stacking_context point 2: (BlockBox, MarginBox, InlineBlockBox, TableCellBox, FlexContainerBox,
+   GridContainerBox, ReplacedBox) *)
 Definition point2_class (k : kind) : bool :=
   match k with
-  | KBlock | KMargin | KInlineBlock | KCell | KFlex | KInlineFlex | KBlockReplaced | KInlineReplaced => true
+  | KBlock | KMargin | KInlineBlock | KCell | KFlex | KInlineFlex | KGrid | KInlineGrid | KBlockReplaced
+  | KInlineReplaced => true
   | _ => false
   end.
 Definition is_table (k : kind) : bool := match k with KTable => true | _ => false end.
